@@ -182,6 +182,56 @@ def positions(sk, kind, key):
                     for p in r["paths"] or []:
                         if i["ns"] + "/" + p["svc"] == key:
                             out.add("ing-path-backend")
+
+    def refs(ps, owner, tag):
+        for r in ps:
+            if (r["ns"] or owner) + "/" + r["name"] == key:
+                out.add(tag)
+
+    def qual(owner, v):
+        return v if "/" in v else owner + "/" + v
+
+    k = sk["kind"]
+    ings = [sk["ing"]] if k == "ing" else ([sk["master"]] + sk["minions"] if k == "merge" else [])
+    if kind == "secret":
+        if k in ("vs", "ts") and sk["tls"] is not None and sk["ns"] + "/" + sk["tls"] == key:
+            out.add(k + "-tls")
+        for i in ings:
+            if key in [i["ns"] + "/" + t for t in i["tls"]]:
+                out.add("ing-tls")
+            for a in ("basic", "jwt"):
+                if i[a] is not None and i["ns"] + "/" + i[a] == key:
+                    out.add("ing-" + a)
+        if not out and k == "vs":
+            out.add("policy-secret")
+    elif kind == "policy" and k == "vs":
+        refs(sk["policies"], sk["ns"], "vs-policy")
+        for r in sk["routes"]:
+            refs(r["policies"], sk["ns"], "vs-route-policy")
+        for v in sk["vsrs"]:
+            for r in v["subroutes"]:
+                refs(r["policies"], v["ns"], "vsr-subroute-policy")
+    elif kind == "dos":
+        if k == "vs":
+            if sk["dos"] and qual(sk["ns"], sk["dos"]) == key:
+                out.add("vs-dos")
+            for r in sk["routes"]:
+                if r["dos"] and qual(sk["ns"], r["dos"]) == key:
+                    out.add("vs-route-dos")
+            for v in sk["vsrs"]:
+                for r in v["subroutes"]:
+                    if r["dos"] and qual(v["ns"], r["dos"]) == key:
+                        out.add("vsr-subroute-dos")
+        for i in ings:
+            if i["dos"] is not None and qual(i["ns"], i["dos"]) == key:
+                out.add("ing-dos")
+    elif kind in ("appolicy", "aplogconf"):
+        a = "ap_policy" if kind == "appolicy" else "ap_logconf"
+        for i in ings:
+            if i[a] is not None and key in [qual(i["ns"], x) for x in i[a].split(",")]:
+                out.add("ing-annotation")
+        if not out and k == "vs":
+            out.add("policy-waf")
     return sorted(out)[0] if out else "other"
 
 
@@ -260,7 +310,7 @@ TRUSTED = [
 
 
 def check(run):
-    n = 400 if run.tier == "quick" else 6000
+    n = 400 if run.tier == "quick" else 4000
     run.proof_obligations()
     binary = C.go_build("c15")
     out = os.path.join(C.WORK, "cases", "c15_%s.jsonl" % run.tier)
